@@ -260,9 +260,9 @@ Proof.
     intros c' Hc'. destruct (fn_apply f v) as [r|]; [|constructor].
     destruct kd.
     + apply po_yield'. apply IH. exact Hc'.
-    + destruct r as [n|[|]|?|?]; try (apply po_tau; apply IH; exact Hc').
+    + destruct r as [n|[|]|?|?|]; try (apply po_tau; apply IH; exact Hc').
       apply po_yield'. apply IH. exact Hc'.
-    + destruct r as [n|[|]|?|?]; try (apply po_tau; apply IH; exact Hc').
+    + destruct r as [n|[|]|?|?|]; try (apply po_tau; apply IH; exact Hc').
       apply po_yield'. apply IH. exact Hc'.
 Qed.
 
